@@ -593,6 +593,8 @@ def run(ctx):
     tasks += [dict(kind="chain", start=si, first=f, depth=chain_depth) for si in range(len(c05_chain.STARTS) if not ctx.quick else 2) for f in c05_chain.OPS]
     tasks += [dict(kind="kept", fmt=f, first=o, depth=4) for f in c05_chain.KEPT_FORMATS for o in ("serA", "serB")]
     ctx.pmap(MOD, "any_task", tasks)
+    for hs in (("4", "7") if ctx.quick else ("1", "2", "4", "7", "123", "4242")):  # a slice of the dataset / collection / kept-object cases again in interpreters with other hash seeds
+        ctx.pmap(MOD, "any_task", [t for t in tasks if t["kind"] in ("ds", "coll")][::7] + [t for t in tasks if t["kind"] == "kept"][:2], hashseed=hs)
     n_cases = sum(len(cases_for(d, fam)) for d, fam in dspecs)
     dspecs = [d for d, _ in dspecs]
     ctx.coverage.update(
